@@ -9,13 +9,13 @@ connected components of the good-link relation of the pruned reference table.  I
 
  (i)   every k-mer occurrence of every read lies in exactly one piece, with its true flanks — PROVED (`C04_link_pieces`,
        = C08_pieces_cover / C08_pieces_exact);
- (ii)  same k-mer ⇒ same shard (bucket purity) — stated (`Msp.C08_bucket_pure_full`), not yet proved;
+ (ii)  same k-mer ⇒ same shard, in either strand (bucket purity) — PROVED (`Msp.C08_bucket_pure`, `Msp.C08_bucket_strand_symmetric`);
  (iii) each shard's nodes are the components of the good links inside the shard — PROVED at id level (`C04_link_shard`, = C02_components);
  (iv)  re-compression of the combined graph merges exactly along surviving node-level links and never duplicates or
        drops a node — partly PROVED (`C04_link_recompress`, = C09_censored_excluded), characterisation missing;
  (v)   components of components are components — not yet proved.
 
-Until (ii), (iv), (v) are closed the property is decided by evaluating the equality of canonical partitions, payload
+Until (iv), (v) are closed the property is decided by evaluating the equality of canonical partitions, payload
 totals and adjacencies on the two real pipelines, and by diffing both with the composed model. -/
 namespace Pipeline
 open Compress (Seq Exts Node)
